@@ -53,7 +53,10 @@ Fixpoint complete_from (allowed : string -> bool) (i : nat) (o1 o2 : list oobs) 
   match o1, o2 with
   | [], [] => []
   | a :: r1, b :: r2 =>
-      (if group_eqb (expand (ob_group a)) (keep_allowed allowed (expand (ob_group b)))
+      (* the steps of a burst are judged by the acceptance test of the
+         correspondence (final values of allowed leaves delivered) and tag 2 *)
+      (if negb (N.eqb (ob_burst a) 0) then []
+       else if group_eqb (expand (ob_group a)) (keep_allowed allowed (expand (ob_group b)))
        then [] else [(i, 3%N)])
       ++ complete_from allowed (S i) r1 r2
   | _, _ => [(i, 3%N)]
